@@ -530,3 +530,51 @@ func (c *Ctx) exec(args []string) Exp {
 }
 
 func wrongType() Exp { return ErrExp("WRONGTYPE") }
+
+// EncodeDB returns a canonical string of one database (used as porcupine state; deadlines are not encoded).
+func (m *Model) EncodeDB(db int) string {
+	keys := make([]string, 0, len(m.DB[db]))
+	for k := range m.DB[db] {
+		keys = append(keys, k)
+	}
+	sort.Strings(keys)
+	var b strings.Builder
+	for _, k := range keys {
+		o := m.DB[db][k]
+		b.WriteString(fmt.Sprintf("%q:", k))
+		switch o.T {
+		case TString:
+			b.WriteString(fmt.Sprintf("s%q", o.S))
+		case TList:
+			b.WriteString("l[")
+			for _, e := range o.L {
+				b.WriteString(fmt.Sprintf("%q,", e))
+			}
+			b.WriteString("]")
+		case THash:
+			fs := make([]string, 0, len(o.H))
+			for f := range o.H {
+				fs = append(fs, f)
+			}
+			sort.Strings(fs)
+			b.WriteString("h{")
+			for _, f := range fs {
+				b.WriteString(fmt.Sprintf("%q=%q,", f, o.H[f]))
+			}
+			b.WriteString("}")
+		case TSet:
+			ms := make([]string, 0, len(o.Set))
+			for mm := range o.Set {
+				ms = append(ms, mm)
+			}
+			sort.Strings(ms)
+			b.WriteString("t{")
+			for _, mm := range ms {
+				b.WriteString(fmt.Sprintf("%q,", mm))
+			}
+			b.WriteString("}")
+		}
+		b.WriteString(";")
+	}
+	return b.String()
+}
